@@ -453,7 +453,12 @@ func (cr *completeRunner) checkRPM(path string, dispatched bool, shape string) {
 	cr.e.Eval(1)
 	if rpm != dispatched {
 		cls := "plain"
-		if strings.Contains(path, "%") {
+		switch pct, plus := strings.Contains(path, "%"), strings.Contains(path, "+"); {
+		case pct && plus:
+			cls = "plus-and-percent-in-path"
+		case plus:
+			cls = "plus-in-path"
+		case pct:
 			cls = "percent-in-path"
 		}
 		cr.e.Violation(cr.c, fmt.Sprintf("complete|RoutePatternMatch-%v-dispatch-%v|%s|%s", rpm, dispatched, cls, onoff(cr.cfg.Unescape, "unescape-on", "unescape-off")),
@@ -650,6 +655,107 @@ func runComplete(e *ev.Env) {
 		}
 		if c.R.Chance(1, 2000) {
 			e.Sample("random-pattern", map[string]any{"pattern": pat.String(), "cfg": cfg.String()})
+		}
+	})
+
+	// '+' and blanks. With UnescapePath the framework decodes the path with a query-argument
+	// decoder, which also turns '+' into a blank; the documentation only speaks of "encoded
+	// characters", so what a '+' means under UnescapePath is not judged by construction. Judged
+	// for every spelling, under all 8 configurations: RoutePatternMatch answers exactly as
+	// dispatching the path to an app holding only that route. Without UnescapePath nothing is
+	// decoded and a '+' is an ordinary byte: there the by-construction clause is judged too.
+	e.Cases("plus", e.N(15000, 300000), func(c *ev.Case) {
+		r := c.R
+		n := r.Range(2, 7)
+		lits := []string{"a", "b", "/", "-", ".", "/c++", "/a+b", "-x+", "/x y", "/v1/", ".json", "/q", "+", " ", "/Shop", "a b"}
+		var toks []tok
+		toks = append(toks, tok{Kind: tLit, Lit: "/"})
+		nn := 0
+		for i := 0; i < n; i++ {
+			last := &toks[len(toks)-1]
+			if last.Kind == tLit && r.Chance(2, 5) {
+				t := tok{Kind: []int{tNamed, tNamedOpt, tStar, tPlus}[r.PickW(50, 20, 15, 15)]}
+				if t.Kind == tNamed || t.Kind == tNamedOpt {
+					nn++
+					t.Name = "x" + strconv.Itoa(nn)
+				}
+				toks = append(toks, t)
+				continue
+			}
+			l := gen.Pick(r, lits)
+			if last.Kind == tLit {
+				if strings.HasSuffix(last.Lit, "/") && strings.HasPrefix(l, "/") {
+					l = l[1:]
+				}
+				last.Lit += l
+			} else {
+				for l[0] != '/' && l[0] != '-' && l[0] != '.' {
+					l = gen.Pick(r, lits)
+				}
+				toks = append(toks, tok{Kind: tLit, Lit: l})
+			}
+		}
+		pat := pattern{Toks: toks}
+		vpool := []string{"", "x", "xy", "a+b", "+", "x y", "1+1", "a b c", "+x", "y+", "Xy"}
+		cfg := cfg8(r.Intn(8))
+		cfg.CustomCtx = r.Chance(1, 4)
+		cr := newCompleteRunner(e, c, pat, cfg)
+		if cr == nil {
+			return
+		}
+		shape := patternShape(pat)
+		for k := 0; k < 6; k++ {
+			vals := make([]string, len(toks))
+			for i, t := range toks {
+				if t.Kind != tLit {
+					vals[i] = gen.Pick(r, vpool)
+				}
+			}
+			if !legalFilling(pat, vals) {
+				continue
+			}
+			logical := pat.fill(vals)
+			if !cfg.Unescape && !strings.Contains(logical, " ") {
+				cr.checkFilling(vals)
+				e.Stat("plus_fillings_judged_by_construction_without_unescape", 1)
+			}
+			// wire spellings of the described text: a blank as '+' or %20, a '+' as itself or
+			// %2B, possibly one more byte percent-encoded (a '%' elsewhere in the path)
+			for j := 0; j < 3; j++ {
+				var sb strings.Builder
+				for i := 0; i < len(logical); i++ {
+					switch ch := logical[i]; {
+					case ch == ' ':
+						sb.WriteString(gen.Pick(r, []string{"+", "%20"}))
+					case ch == '+' && r.Chance(1, 4):
+						sb.WriteString("%2B")
+					case ch != '/' && ch != '+' && r.Chance(1, 12):
+						fmt.Fprintf(&sb, "%%%02X", ch)
+					default:
+						sb.WriteByte(ch)
+					}
+				}
+				sp := sb.String()
+				ran, _, st := cr.dispatch(sp)
+				if st == -1 {
+					continue
+				}
+				cr.checkRPM(sp, ran, shape)
+				if strings.Contains(sp, "+") {
+					e.Nontrivial(cr.text, sp, cfg.String())
+					if strings.Contains(sp, "%") {
+						e.Stat("plus_paths_with_percent", 1)
+					} else {
+						e.Stat("plus_paths_without_percent", 1)
+					}
+					if ran {
+						e.Stat("plus_paths_matched", 1)
+					}
+				}
+			}
+		}
+		if c.R.Chance(1, 1000) {
+			e.Sample("plus-pattern", map[string]any{"pattern": pat.String(), "cfg": cfg.String()})
 		}
 	})
 }
